@@ -175,17 +175,33 @@ Theorem C20_state_preserved : forall c now msg st st' p,
      then s_legacy_minter sl else s_owner sl) /\
   (* the governance-set minter status is never touched *)
   s_status sl' = s_status sl /\
+  (* the supply counter MINTABLE_NUM_TOKENS is never touched *)
+  s_mintable sl' = s_mintable sl /\
   (* factory parameters: only with a supplied message *)
   (p = true -> kind_of c = KFactory /\ msg <> None).
 Proof. exact state_preserved. Qed.
 
-Definition ex_slots_f : slots := mkSlots None None None None None None None.
+Definition ex_slots_f : slots := mkSlots None None None None None None None None.
 
 (* what governance set with sudo UpdateStatus (verified / blocked / explicit) is the same
    after every accepted migration, whatever the contract, stored identity and version *)
 Theorem C20_status_preserved : forall c now msg st st' p,
   migrate c now msg st = Ok (st', p) -> s_status (c_slots st') = s_status (c_slots st).
 Proof. exact status_preserved. Qed.
+
+(* what is left to mint is the same after every accepted migration: a capped edition whose
+   remaining supply was burned (counter 0 although cap - minted > 0) stays closed *)
+Theorem C20_mintable_preserved : forall c now msg st st' p,
+  migrate c now msg st = Ok (st', p) -> s_mintable (c_slots st') = s_mintable (c_slots st).
+Proof. exact mintable_preserved. Qed.
+
+(* the scenario of a capped open edition after BurnRemaining (cap 12, 4 minted, counter 0),
+   migrated from an older stored version: the counter stays 0 *)
+Example C20_ex_burned_edition_stays_closed :
+  migrate OpenEditionMinterMerkleWl 1700000100000000000 None
+          (mkState "crates.io:sg-open-edition-minter" "3.15.0" (mkSlots None None None None None None (Some (false, false, false)) (Some 0))) =
+  Ok (mkState "crates.io:sg-open-edition-minter" "3.16.0" (mkSlots None None None None None None (Some (false, false, false)) (Some 0)), false).
+Proof. vm_compute. reflexivity. Qed.
 
 (* ---- parameters supplied with a factory migration: field by field ----
    `unwrap_or o d` = the supplied value when the field was supplied, else the previous
@@ -295,10 +311,10 @@ Example C20_ex_oe_migrate_keeps_unsupplied_airdrop_bps :
 Proof. vm_compute. reflexivity. Qed.
 
 (* ---- non-vacuity ---- *)
-Definition ex_slots : slots := mkSlots (Some 1700000000000000000) None None None None None (Some (false, true, true)).
+Definition ex_slots : slots := mkSlots (Some 1700000000000000000) None None None None None (Some (false, true, true)) (Some 16).
 Example C20_ex_vending_from_3_8_9 :
   migrate VendingMinter 1700000100000000000 None (mkState "crates.io:sg-minter" "3.8.9" ex_slots) =
-  Ok (mkState "crates.io:sg-minter" "3.16.0" (mkSlots (Some 1699956900000000000) None None None None None (Some (false, true, true))), false).
+  Ok (mkState "crates.io:sg-minter" "3.16.0" (mkSlots (Some 1699956900000000000) None None None None None (Some (false, true, true)) (Some 16)), false).
 Proof. vm_compute. reflexivity. Qed.
 Example C20_ex_vending_from_3_9_0_keeps_anchor :
   migrate VendingMinter 1700000100000000000 None (mkState "crates.io:sg-minter" "3.9.0" ex_slots) =
@@ -312,9 +328,9 @@ Example C20_ex_foreign_refused :
 Proof. vm_compute. reflexivity. Qed.
 Example C20_ex_updatable_from_base :
   migrate Sg721Updatable 1700000100000000000 None
-          (mkState "crates.io:sg721-base" "3.0.5" (mkSlots None None None (Some 5) None (Some 11) None)) =
+          (mkState "crates.io:sg721-base" "3.0.5" (mkSlots None None None (Some 5) None (Some 11) None None)) =
   Ok (mkState "crates.io:sg721-updatable" "3.16.0"
-              (mkSlots None (Some false) (Some false) (Some 1699913700000000000) None (Some 11) None), false).
+              (mkSlots None (Some false) (Some false) (Some 1699913700000000000) None (Some 11) None None), false).
 Proof. vm_compute. reflexivity. Qed.
 Example C20_ex_factory_keeps_version :
   migrate VendingFactory 5 (Some (mkFmsg false false false)) (mkState "crates.io:vending-factory" "2.1.0" ex_slots) =
@@ -332,6 +348,7 @@ Print Assumptions C20_post_version.
 Print Assumptions C20_post_factory.
 Print Assumptions C20_state_preserved.
 Print Assumptions C20_status_preserved.
+Print Assumptions C20_mintable_preserved.
 Print Assumptions C20_semver_not_string_order.
 Print Assumptions C20_base_migrate_params_frame.
 Print Assumptions C20_vending_migrate_params_frame.
